@@ -95,6 +95,23 @@ def compoundTail : List (List Char) → List Char → Option (List Tok)
     | some t, some ts => some (.us :: t :: ts)
     | _, _ => none
 
+/-- the name behind the `\` of an `escaped_compound_variable` written without braces: `base_seg_seg…`, base a plain
+run, at least one segment, every segment an integer or a plain run (`x_1`, `total_a_12`) -/
+def isEscapedRun (run : List Char) : Bool :=
+  match splitRun run with
+  | base :: seg :: segs => isPlainRun base && (seg :: segs).all (fun x => !x.isEmpty && (x.all isDigit || isPlainRun x))
+  | _ => false
+
+/-- text behind an escaped name that the model declines: `[` (the real grammar has no array access on an escaped
+name), `.digit` behind an integer segment (a `float` body) -/
+def escapedFollowBad (run next : List Char) : Bool :=
+  (match next.dropWhile (fun c => c == ' ' || c == '\t') with
+   | '[' :: _ => true
+   | _ => false) ||
+  (match next with
+   | '.' :: d :: _ => isDigit d && ((splitRun run).getLast?.map (fun x => x.all isDigit)).getD false
+   | _ => false)
+
 /-- after `/*`: the text behind the closing `*/` (none: unterminated, then `/*` is no comment). -/
 def afterBlockComment : List Char → Option (List Char)
   | [] => none
@@ -198,12 +215,7 @@ def lexAux : Nat → List Char → Bool → List Tok → LexRes
             | some ts => lexAux fuel r true (ts.reverse ++ .word (String.ofList base) :: acc)
             | none => .unsupported
           | [] => .unsupported
-      else if c == '{' then
-        match acc with
-        | .word w :: _ =>
-          -- `graph = { ^"Graph" ~ "{" … }`: graph literals are outside the model
-          if lowerWord w == "graph" then .unsupported else lexAux fuel rest false (.lbrace :: acc)
-        | _ => lexAux fuel rest false (.lbrace :: acc)
+      else if c == '{' then lexAux fuel rest false (.lbrace :: acc)
       else if c == '}' then
         match rest with
         | '_' :: _ =>
@@ -228,6 +240,12 @@ def lexAux : Nat → List Char → Bool → List Tok → LexRes
         match r with
         | '"' :: r' => lexAux fuel r' false (.str (String.ofList body) :: acc)
         | _ => .unsupported
+      else if c == '\\' then
+        -- `escaped_compound_variable = { "\\" ~ compound_variable }`: the variable whose NAME is the text behind the
+        -- backslash; a word with an inner underscore stands for it (a compound run is never lexed as one word)
+        let (run, r) := spanWhile isWordChar rest
+        if isEscapedRun run && !(escapedFollowBad run r) then lexAux fuel r true (.word (String.ofList run) :: acc)
+        else .unsupported
       else .unsupported
 
 def lex (s : List Char) : LexRes := lexAux (s.length + 1) s false []
